@@ -18,11 +18,18 @@ ScalarTypes == {"String", "&str", "i8", "i16", "i32", "i64", "isize", "u8", "u16
 ValueTypes == {"Value", "&Value", "Variable", "&Variable", "Rcvar", "&Rcvar"}
 
 (* the value with every integer as [t |-> "num", int |-> digits], as the judge sees results *)
-Conv0(c) == IF c.ty \in ValueTypes THEN c.json ELSE Image(c.node)
+(* a value nested d levels deep, built in code by the driver from (d, shape): arrays, objects, or both in turn, around the leaf 7.
+   (JSON text of such depth cannot be parsed -- the JSON parser stops at 128 levels -- but a serde_json::Value can be built and searched) *)
+(* interchange form of such a value (the JSON reader of TLC stops at 255 levels): its spine -- the container kind at each level,
+   outermost first, 97 = array of one element, 111 = object with the single key "k" -- and its leaf *)
+DeepKind(level, shape) == IF shape = "arr" \/ (shape = "mix" /\ level % 2 = 0) THEN 97 ELSE 111
+DeepVal(d, shape) == [t |-> "deep", spine |-> [i \in 1..d |-> DeepKind(d - i + 1, shape)], leaf |-> JIntS("7")]
+InputJson(c) == IF "deep" \in DOMAIN c THEN DeepVal(c.deep.d, c.deep.shape) ELSE c.json
+Conv0(c) == IF c.ty \in ValueTypes THEN InputJson(c) ELSE Image(c.node)
 
 (* lib.rs:190-357: the specialised implementations *)
 Special(c) ==
-  CASE c.ty \in ValueTypes -> c.json                                  \* try_into / identity / clone
+  CASE c.ty \in ValueTypes -> InputJson(c)                                  \* try_into / identity / clone
     [] c.ty \in {"String", "&str"} -> JStr(c.node.s)
     [] c.ty \in {"i8", "i16", "i32", "i64", "isize", "u8", "u16", "u32", "u64", "usize"} -> JIntS(c.node.v)   \* Number::from
     [] c.ty \in {"f32", "f64"} -> Rat(c.node.p, c.node.q)             \* Number::from_f64 (finite inputs only are in the domain)
